@@ -290,7 +290,7 @@ Definition resolve (ty var : str) : rres :=
     match env var with Some v => RVal v | None => RErr EPlaceholder end
   else if str_eqb t s_property then
     match split_hash [] var with
-    | None => RErr EPanic                      (* split[1] on a one-element slice: index out of range *)
+    | None => RErr EPlaceholder                (* "property name is missing": an error since fix 502dfdc (before: split[1] out of range, a panic) *)
     | Some (file, key) => match prop file key with Some v => RVal v | None => RErr EPlaceholder end
     end
   else RNone.
